@@ -43,7 +43,7 @@ REGISTRY = dict(
          "writers, sharing among readers, mutex exclusion and absence of lock deadlock over all interleavings of 3 actors (bug switches "
          "NoLock, WriteShared, TruncBeforeLock are rejected). The real package, with os / syscall / sync redirected to shims, runs under "
          "a cooperative scheduler in which the real flock(2) decides admission: bounded exhaustive DFS, PCT/random, plus free multi-process "
-         "runs. Every run's event trace is validated by TLC against the contract: no two hold intervals on one file overlap unless both "
+         "runs; holders come from Open / Edit / Create / OpenFile with O_EXCL and O_APPEND, a FIFO, a descriptor inherited by a child process, shared and per-actor Mutex values, and a mode in which every open for writing is refused (nobody may then get in on a weaker open). Every run's event trace is validated by TLC against the contract: no two hold intervals on one file overlap unless both "
          "are readers; witness files give log-independent confirmation.",
     note="trusted: TLC, the kernel's flock, the vos/vsyscall/vsync shims and scheduler, O_APPEND log ordering across processes",
     technique="TLA+ lock-protocol model checked by TLC; controlled schedules (kernel flock decides) + free multi-process runs of the real lockedfile; hold-interval traces validated by TLC")
